@@ -59,6 +59,14 @@ def check(ctx):
                     seed = [rng.choice([0, 1, 255, rng.randrange(256)]) for _ in range(SEEDW[fn])]
                     cut = rng.choice([0, lead, lead + (n // 4) * 4, len(data), (len(data) // 4) * 4])
                     lines.append(line(fn, seed, data, rng.randrange(8), min(cut, len(data))))
+    # one buffer used twice with different contents (same pointer, length and seed in both calls)
+    for fn in FNS:
+        if fn == "strm8": continue
+        for n in [1, 2, 4, 5, 8, 13, 32] + ([3, 7, 64, 100, 255] if ctx.thorough else []):
+            for _ in range(2):
+                A = [rng.randrange(256) for _ in range(n)]; B = list(A); B[rng.randrange(n)] ^= 1 << rng.randrange(8)
+                if _: B = [rng.randrange(256) for _ in range(n)]
+                lines.append("CrcReuse %s %s %s %s %d" % (fn, fmt([rng.randrange(256) for _ in range(SEEDW[fn])]), fmt(A), fmt(B), rng.randrange(8)))
     # CRC-32 over messages beyond 2^16 words (judged by the byte-at-a-time form of the definition, Fast32)
     for n in ([65536, 262143, 262144, 262145, 262151, 300000] if ctx.thorough else [262144, 262149]):
         data = [rng.randrange(256) for _ in range(n)]
@@ -91,12 +99,12 @@ def check(ctx):
     bigscript = [x for ln in biglines for x in ("R", ln)]
     tb = ctx.drive(drv, bigscript, "crc_big", lines_per_proc=2, timeout=1500)
     bad = ctx.judge("CrcTrace", [t, tb], shards=16)
+    for b in bad: b["driver"] = "drv_crc"
     # the second build configuration (size-optimised, plain char unsigned) on part of the executions
     ta = ctx.drive(ctx.cxx("drv_crc_alt", ["drv_crc.cpp", R + "/igris/util/crc.c"], alt=True), core.subset_executions(script, ctx.seed, 1.0 if ctx.thorough else 0.34), "crc_alt")
     bada = ctx.judge("CrcTrace", [ta], shards=16)
     for b in bada: b["driver"] = "drv_crc@alt"
     bad += bada
-    for b in bad: b["driver"] = "drv_crc"
     ctx.report(bad)
     ctx.assumptions += [
         "definitions: bit-serial polynomial division (Crc.tla); CRC-32 is defined over little-endian words with a zero-extended tail, so piecewise evaluation is only promised at multiples of four bytes",
@@ -113,6 +121,10 @@ def replay(ctx, path):
         return core.replay_fault(ctx, d, drv, "CrcTrace", path)
     if e.get("e") == "CrcBig":
         t = ctx.drive(drv, ["R", "CrcBig %s %s %s %s" % (fmt(e["seed"]), e["len"], fmt(e["head"]), fmt(e["tail"]))], "replay", timeout=1500)
+        ctx.report(ctx.judge("CrcTrace", [t]))
+        return ctx.finish(rule="replay of " + path)
+    if e.get("e") == "CrcReuse":
+        t = ctx.drive(drv, ["R", "CrcReuse %s %s %s %s %d" % (e["fn"], fmt(e["seed"]), fmt(e["data"]), fmt(e["data2"]), e["off"])], "replay")
         ctx.report(ctx.judge("CrcTrace", [t]))
         return ctx.finish(rule="replay of " + path)
     t = ctx.drive(drv, ["R", line(e["fn"], e["seed"], e["data"], e["off"], e["cut"])], "replay")
